@@ -15,6 +15,7 @@ import (
 	"go/ast"
 	"go/constant"
 	"go/parser"
+	"go/printer"
 	"go/token"
 	"go/types"
 	"os"
@@ -603,7 +604,8 @@ func main() {
 	pp := parseFile(filepath.Join(repo, "parser/parser.go"))
 	gr := parseFile(filepath.Join(repo, "parser/grammar.go"))
 	var rules [][2]string
-	var elide, unquote []string
+	var elide, unquote, unknownOpts []string
+	var lexmap [][2]string
 	for _, d := range pp.Decls {
 		gd, ok := d.(*ast.GenDecl)
 		if !ok || gd.Tok != token.VAR {
@@ -638,6 +640,29 @@ func main() {
 							continue
 						}
 						fn := exprString(ce.Fun)
+						switch fn {
+						case "participle.Elide", "participle.Unquote", "participle.UseLookahead", "participle.Lexer":
+						case "participle.Map":
+							// participle.Map(func, tokenType...): the mapper's source text, one pair per token type
+							if len(ce.Args) > 0 {
+								if fl, ok := ce.Args[0].(*ast.FuncLit); ok {
+									var sb strings.Builder
+									printer.Fprint(&sb, token.NewFileSet(), fl)
+									txt := strings.Join(strings.Fields(sb.String()), " ")
+									for _, a := range ce.Args[1:] {
+										if bl, ok := a.(*ast.BasicLit); ok {
+											v, _ := strconv.Unquote(bl.Value)
+											lexmap = append(lexmap, [2]string{v, txt})
+										}
+									}
+								} else {
+									unknownOpts = append(unknownOpts, exprString(ce))
+								}
+							}
+						default:
+							// an option the parser model does not know about
+							unknownOpts = append(unknownOpts, fn)
+						}
 						for _, a := range ce.Args {
 							if bl, ok := a.(*ast.BasicLit); ok {
 								v, _ := strconv.Unquote(bl.Value)
@@ -670,6 +695,15 @@ func main() {
 	}
 	out.WriteString("].\nDefinition lexer_unquote : list string := [")
 	for i, e := range unquote {
+		if i > 0 {
+			out.WriteString("; ")
+		}
+		out.WriteString(coqString(e))
+	}
+	out.WriteString("].\n")
+	emitPairsAllowEmpty("lexer_map", lexmap)
+	out.WriteString("Definition parser_unknown_options : list string := [")
+	for i, e := range unknownOpts {
 		if i > 0 {
 			out.WriteString("; ")
 		}
